@@ -121,7 +121,8 @@ def cases(draw):
     if trace and draw(st.integers(0, 2)) == 0:
         bad = draw(st.integers(0, len(trace) - 1))
     return {'sorts': sorts, 'hooked': hooked, 'syms': {k: list(v) for k, v in syms.items()}, 'use_inj': use_inj, 'rules': rules, 'order': order,
-            'init': init, 'trace': trace, 'bad': bad, 'via_hints': draw(st.booleans())}
+            'init': init, 'trace': trace, 'bad': bad, 'via_hints': draw(st.booleans()),
+            'bad_mode': draw(st.sampled_from(['wrong', 'omit'])), 'bad_pick': draw(st.integers(0, 3))}
 
 
 def subst(t, sigma):
@@ -228,7 +229,7 @@ def body(c, stats: Stats):
         expected_claims.append(rewrites_ref(r['sort'], to_ref(subst(r['lhs'], st_['sigma']), {}), to_ref(subst(r['rhs'], st_['sigma']), {})))
     nvars = [len(tvars(c['rules'][s['rule']]['lhs']) + tvars(c['rules'][s['rule']]['rhs'])) for s in c['trace']]
     nt = len(c['trace']) >= 2 and any(nvars)
-    cls = ['trace-len-%d' % min(len(c['trace']), 6), 'via-hints' if c['via_hints'] else 'via-rewrite_event'] + (['mismatching'] if c['bad'] is not None else ['matching']) \
+    cls = ['trace-len-%d' % min(len(c['trace']), 6), 'via-hints' if c['via_hints'] else 'via-rewrite_event'] + (['mismatching', 'mismatching-' + c.get('bad_mode', 'wrong')] if c['bad'] is not None else ['matching']) \
         + (['rule-with-vars'] if any(nvars) else []) + (['inj'] if c['use_inj'] else []) + (['repeated-var'] if any(_repeated(c['rules'][s['rule']]['lhs']) for s in c['trace']) else [])
     stats.case(repr(c), nt or (c['bad'] is not None and len(c['trace']) >= 1), cls,
                {'rules': [[_show(r['lhs']), _show(r['rhs'])] for r in c['rules']][:4], 'init': _show(c['init']), 'trace': [[s['rule'], {k: _show(v) for k, v in s['sigma'].items()}] for s in c['trace']], 'bad_step': c['bad']})
@@ -270,7 +271,14 @@ def body(c, stats: Stats):
                 import proof_generation.pattern as P
 
                 marker = sem.get_symbol(sorted(n for n in c['syms'] if c['syms'][n][0] == 0)[0]).app()
-                if wrong:
+                lhs_vars = [v for v in tvars(c['rules'][st_['rule']]['lhs']) if v in st_['sigma']]
+                if c.get('bad_mode') == 'omit' and lhs_vars:
+                    # the substitution leaves a variable of the left-hand side unbound: the instantiated left-hand side still
+                    # contains a metavariable, so the step does not start from the (ground) current configuration
+                    gone = lhs_vars[c.get('bad_pick', 0) % len(lhs_vars)]
+                    wrong = dict(sem.convert_substitutions({k: to_kore(v, 'S0') for k, v in st_['sigma'].items() if k != gone}, ordinal_of[st_['rule']]))
+                    still_same = False
+                elif wrong:
                     k0 = sorted(wrong)[0]
                     wrong[k0] = sem.get_symbol('f0').app(*([marker] * c['syms']['f0'][0])) if R.from_repo(wrong[k0]) == R.from_repo(marker) else marker
                     lhs_now = subst(c['rules'][st_['rule']]['lhs'], st_['sigma'])
